@@ -368,6 +368,12 @@ func (rp *ReverseProxy) ServeHTTP(rw http.ResponseWriter, outreq *http.Request, 
 	if err != nil {
 		return err
 	}
+	if res.StatusCode < 100 || res.StatusCode > 999 {
+		// net/http's client accepts any three digits, WriteHeader panics
+		// on codes outside 100-999: such an answer is a bad gateway
+		res.Body.Close()
+		return fmt.Errorf("upstream answered with invalid status code %03d", res.StatusCode)
+	}
 
 	isWebsocket := res.StatusCode == http.StatusSwitchingProtocols && strings.EqualFold(res.Header.Get("Upgrade"), "websocket")
 
